@@ -21,6 +21,8 @@ def main(argv: list[str] | None = None) -> int:
     sub.add_parser("selftest")
     lt = sub.add_parser("langtest")
     lt.add_argument("only", nargs="?")
+    rt = sub.add_parser("rdftest")
+    rt.add_argument("only", nargs="?")
     args = ap.parse_args(argv)
 
     from .loader import load_program
@@ -47,6 +49,14 @@ def main(argv: list[str] | None = None) -> int:
         for f_ in failures:
             print("  MISMATCH " + f_[:400])
         print(f"jstat langtest: {n} snippet functions, {len(failures)} mismatches")
+        return 0 if not failures else 2
+    if args.cmd == "rdftest":
+        from . import rdftest
+
+        n, failures = rdftest.run(verbose=True, only=args.only)
+        for f_ in failures:
+            print("  MISMATCH " + f_[:500])
+        print(f"jstat rdftest: {n} snippet functions, {len(failures)} mismatches")
         return 0 if not failures else 2
     if args.cmd == "replay":
         data = json.load(open(args.path))
